@@ -29,8 +29,16 @@ def sh(cmd, cwd=None, timeout=1800, env=None, check=False, stdin=None):
     e = dict(os.environ)
     if env:
         e.update(env)
-    r = subprocess.run(cmd, cwd=cwd, shell=isinstance(cmd, str), stdout=subprocess.PIPE,
-                       stderr=subprocess.PIPE, timeout=timeout, env=e, input=stdin)
+    try:
+        r = subprocess.run(cmd, cwd=cwd, shell=isinstance(cmd, str), stdout=subprocess.PIPE,
+                           stderr=subprocess.PIPE, timeout=timeout, env=e, input=stdin)
+    except subprocess.TimeoutExpired as ex:
+        # a hang is an outcome to report (exit status 124, what was printed so far), not a reason to die
+        out = (ex.stdout or b'').decode('utf-8', 'replace')
+        err = (ex.stderr or b'').decode('utf-8', 'replace') + '\nTIMEOUT after %s s: %s\n' % (timeout, cmd if isinstance(cmd, str) else ' '.join(map(str, cmd)))
+        if check:
+            raise RuntimeError("command timed out: %s" % (cmd,))
+        return 124, out, err
     out = r.stdout.decode('utf-8', 'replace')
     err = r.stderr.decode('utf-8', 'replace')
     if check and r.returncode != 0:
